@@ -38,8 +38,11 @@ REQUIRED = {"fold:direct_calls": 2000, "fold:multi_wrap": 500, "fold:from_sample
 
 def jobs(tier, seed):
     n_jobs = 16 if tier == "quick" else 32
-    return [{"name": f"lim-{j}", "seed": seed, "j": j, "n_direct": 200 if tier == "quick" else 800,
+    out = [{"name": f"lim-{j}", "seed": seed, "j": j, "n_direct": 200 if tier == "quick" else 800,
              "n_gibbs": 10 if tier == "quick" else 45, "n_box": 10 if tier == "quick" else 45} for j in range(n_jobs)]
+    if tier == "thorough":
+        out.append({"name": "repo-tests", "seed": seed, "j": 999, "mode": "repo_tests"})
+    return out
 
 
 # ------------------------------------------------------------------ exact reference fold
@@ -161,6 +164,10 @@ def random_box(rng, d):
 
 
 def run_job(job, rec):
+    if job.get("mode") == "repo_tests":
+        from vmon import repotests
+
+        return repotests.run(rec, ID)
     from inference.mcmc import Bounds, GibbsChain, PcaChain, HamiltonianChain, EnsembleSampler
     from inference.mcmc.gibbs import MetropolisChain
     from vmon.contracts import attach
